@@ -1073,7 +1073,9 @@ class QvmCpu:
 
     def _exec_lcase(self):
         s = self.pop(CellType.STRING)
-        self.push(CellType.STRING, s.lower())
+        # only ASCII letters change case in QBASIC
+        s = ''.join(c.lower() if 'A' <= c <= 'Z' else c for c in s)
+        self.push(CellType.STRING, s)
 
     def _exec_ltrim(self):
         s = self.pop(CellType.STRING)
@@ -1498,7 +1500,9 @@ class QvmCpu:
 
     def _exec_ucase(self):
         s = self.pop(CellType.STRING)
-        self.push(CellType.STRING, s.upper())
+        # only ASCII letters change case in QBASIC
+        s = ''.join(c.upper() if 'a' <= c <= 'z' else c for c in s)
+        self.push(CellType.STRING, s)
 
     def _exec_xor(self):
         self._bitwise(lambda a, b: a ^ b)
